@@ -161,7 +161,8 @@ theorem tz_row_tzinfos_string (es : List (Option Token × TzData)) (n : Option T
     (h : lookupKey es n = some (.str s)) (hs : tzstrCtor s = .ok ()) :
     buildTzinfo (.mapping es) n off = .ok (.viaTzinfos (.str s) n) := by
   unfold buildTzinfo; simp [h, hs, pure, Except.pure, bind, Except.bind]
-/-- … and `tz.tzstr`'s own exception (ValueError for a malformed TZ string) escapes as it is: `parse` does not wrap it -/
+/-- … and `tz.tzstr`'s own exception (ValueError for a malformed TZ string) leaves `_build_tzinfo` as it is; `parse` wraps a
+    ValueError of `_build_tzaware` as ParserError since /repo 950345d (`parseResult`) -/
 theorem tz_row_tzinfos_bad_string (es : List (Option Token × TzData)) (n : Option Token) (off : Option Int) (s : Token)
     (e : PyErr) (h : lookupKey es n = some (.str s)) (hs : tzstrCtor s = .error e) :
     buildTzinfo (.mapping es) n off = .error e := by
@@ -196,6 +197,10 @@ theorem tz_row_callable_default_int (es : List (Option Token × TzData)) (n : Op
   unfold buildTzinfo; simp [h, fixedZone, hk, bind, Except.bind]
 theorem tz_row_callable_bad (es : List (Option Token × TzData)) (n : Option Token) (off : Option Int)
     (h : lookupKey es n = none) : buildTzinfo (.callable es (.data .bad)) n off = .error .TypeError := by
+  unfold buildTzinfo; simp [h, bind, Except.bind, throw, throwThe, MonadExceptOf.throw]
+/-- … a callable that raises ValueError: `_build_tzinfo` propagates it (and `parse` reports ParserError since /repo 950345d) -/
+theorem tz_row_callable_raises (es : List (Option Token × TzData)) (d : TzDflt) (n : Option Token) (off : Option Int)
+    (h : lookupKey es n = some .raises) : buildTzinfo (.callable es d) n off = .error .ValueError := by
   unfold buildTzinfo; simp [h, bind, Except.bind, throw, throwThe, MonadExceptOf.throw]
 /-- … and a callable is asked with `(tzname, tzoffset)` -/
 theorem tz_row_tzinfos_callable_offset (n : Option Token) (k : Int) (hk : offsetOk k = true) :
@@ -324,7 +329,7 @@ theorem ignoretz_same_wall (cls : Char → CClass) (info : Info) (o : Opts) (tzn
         | ok naive =>
           simp only [hb, pure, Except.pure] at h ⊢
           cases hz : buildTzaware tznames tzi res with
-          | error e => simp [hz] at h
+          | error e => cases e <;> simp [hz] at h
           | ok z =>
             simp only [hz] at h
             injection h with h
@@ -428,7 +433,7 @@ theorem fuzzy_tokens_same_dt (cls : Char → CClass) (info : Info) (o : Opts) (t
             · rename_i hig
               simp only [hig, if_false] at ⊢
               cases hz : buildTzaware tznames tzi res with
-              | error e => simp [hz] at h
+              | error e => cases e <;> simp [hz] at h
               | ok z =>
                 simp only [hz] at h ⊢
                 injection h with h; subst h; rfl
